@@ -53,7 +53,7 @@ CONFIG = dict(
              "/repo (fix: 80184de), now the theorem C13_v6_reply_type. 'Unicast' for renewal is the "
              "cleared broadcast bit only: the datagram goes to the client's configured server address (broadcast by "
              "default). A nil lease.Offer / lease.ACK (nil-pointer panic in Renew) is outside the model."),
-    rule=("lease4/lease6: the real nclient4 (DiscoverOffer, Request, RequestFromOffer, Renew, Release, Inform) and nclient6 "
+    rule=("lease4/lease6: (a fifth of the lease ACKs that renewals and releases are built from echo an address in ciaddr, with yiaddr set or 0.0.0.0) the real nclient4 (DiscoverOffer, Request, RequestFromOffer, Renew, Release, Inform) and nclient6 "
           "(Solicit, RapidSolicit, Request) clients on the scripted in-memory PacketConn inside a testing/synctest bubble "
           "against REACTIVE scripted servers: 0..3 servers, each answering any of the client's transmissions (retransmissions "
           "included) with OFFER/ACK/NAK (ADVERTISE/REPLY) or wrong-type, wrong-xid, wrong-hwaddr, BOOTREQUEST, truncated, "
